@@ -1,8 +1,12 @@
-(* C15 — I/O failures are reported faithfully and read fragmentation is irrelevant. (Writer side;
-   the Reader side theorems are added from ReaderProofs.v) *)
-From LZ4V Require Import Base GenBlock BlockFormat FrameImpl Writer Reader FrameTheoremsSpec WriterProofs.
+(* C15 — I/O failures are reported faithfully and read fragmentation is irrelevant. *)
+From LZ4V Require Import Base GenBlock BlockFormat FrameImpl Writer Reader FrameTheoremsSpec WriterProofs ReaderProofs Lifecycle ReaderSpec2 ReaderProofs2.
 (* the underlying writer failing from its k-th call on, for EVERY k and every session: what reached
    the sink is a prefix of the fault-free output and the failure is returned by some call, by Close
    at the latest *)
 Theorem C15_sink_fault : writer_fault_stmt.   Proof. exact writer_fault. Qed.
 Print Assumptions C15_sink_fault.
+(* the underlying reader failing at its k-th call, for EVERY k and EVERY input (legacy included): the
+   delivered bytes are a prefix of the fault-free output, and the result is the injected error —
+   never a clean end — unless the stream had already been read completely *)
+Theorem C15_source_fault : source_fault2_stmt.  Proof. exact source_fault2. Qed.
+Print Assumptions C15_source_fault.
